@@ -5,6 +5,7 @@ package main
 
 import (
 	"fmt"
+	"os"
 	"go/constant"
 	"go/token"
 	"go/types"
@@ -345,7 +346,61 @@ func congruentReturns(f *ssa.Function, pa, pb *ssa.Parameter) ([]retVerdict, *co
 }
 
 // falseUnder: the (boolean) result with key k is false given the facts of its path.
+// evalKey evaluates a congruence key under the facts of a path: 1 true, 0 false, -1 unknown.
+func evalKey(k string, facts map[string]bool, depth int) int {
+	if depth > 10 {
+		return -1
+	}
+	if strings.HasPrefix(k, "!") {
+		switch evalKey(k[1:], facts, depth+1) {
+		case 1:
+			return 0
+		case 0:
+			return 1
+		}
+		return -1
+	}
+	switch k {
+	case "const:true":
+		return 1
+	case "const:false":
+		return 0
+	}
+	if t, has := facts[k]; has {
+		if t {
+			return 1
+		}
+		return 0
+	}
+	if strings.HasPrefix(k, "and(") || strings.HasPrefix(k, "or(") {
+		isAnd := strings.HasPrefix(k, "and(")
+		inner := k[strings.Index(k, "(")+1 : len(k)-1]
+		if l, r, ok := splitTop(inner); ok {
+			a, b := evalKey(l, facts, depth+1), evalKey(r, facts, depth+1)
+			if isAnd {
+				if a == 0 || b == 0 {
+					return 0
+				}
+				if a == 1 && b == 1 {
+					return 1
+				}
+			} else {
+				if a == 1 || b == 1 {
+					return 1
+				}
+				if a == 0 && b == 0 {
+					return 0
+				}
+			}
+		}
+	}
+	return -1
+}
+
 func falseUnder(k string, facts map[string]bool) (string, bool) {
+	if evalKey(k, facts, 0) == 0 {
+		return "returns a value that is false under the tests made on the way", true
+	}
 	truth := true
 	if strings.HasPrefix(k, "!") {
 		k, truth = k[1:], false
@@ -433,7 +488,24 @@ func isLoSwitchResult(v ssa.Value) bool {
 		return false
 	}
 	callee := call.Call.StaticCallee()
-	return callee != nil && strings.Contains(funcName(callee), "samber/lo") && strings.Contains(funcName(callee), "Default")
+	if callee != nil && strings.Contains(funcName(callee), "samber/lo") && strings.Contains(funcName(callee), "Default") {
+		return true
+	}
+	// a helper of the repository that hands back such a table result
+	if rs := helperResults(call); len(rs) > 0 {
+		for _, r := range rs {
+			rc, ok := r.(*ssa.Call)
+			if !ok {
+				return false
+			}
+			rcallee := rc.Call.StaticCallee()
+			if rcallee == nil || !strings.Contains(funcName(rcallee), "samber/lo") || !strings.Contains(funcName(rcallee), "Default") {
+				return false
+			}
+		}
+		return true
+	}
+	return false
 }
 
 func valueText(v ssa.Value) string {
@@ -567,26 +639,50 @@ func ruleO6(c *Ctx) {
 				seen := map[*ssa.BasicBlock]bool{}
 				var path []*ssa.BasicBlock
 				var found []*ssa.BasicBlock
-				var dfs func(x *ssa.BasicBlock) bool
-				dfs = func(x *ssa.BasicBlock) bool {
+				type visit struct{ x, from *ssa.BasicBlock }
+				seenV := map[visit]bool{}
+				var dfs func(x, from *ssa.BasicBlock) bool
+				dfs = func(x, from *ssa.BasicBlock) bool {
 					if x == header {
 						found = append([]*ssa.BasicBlock{}, path...)
 						return true
 					}
-					if seen[x] || (uses[x] && x != b) || !header.Dominates(x) {
+					if seenV[visit{x, from}] || (uses[x] && x != b) || !header.Dominates(x) {
 						return false
 					}
-					seen[x] = true
+					seenV[visit{x, from}] = true
+					_ = seen
 					path = append(path, x)
-					for _, s := range x.Succs {
-						if dfs(s) {
+					// the value of `p && q` reached straight from the test of p is the constant false:
+					// only the matching successor can be taken
+					only := -1
+					if iff, ok := x.Instrs[len(x.Instrs)-1].(*ssa.If); ok && from != nil {
+						if ph, ok := iff.Cond.(*ssa.Phi); ok && ph.Block() == x {
+							for i, pr := range x.Preds {
+								if pr == from && i < len(ph.Edges) {
+									if k, ok := ph.Edges[i].(*ssa.Const); ok && k.Value != nil && k.Value.Kind() == constant.Bool {
+										if constant.BoolVal(k.Value) {
+											only = 0
+										} else {
+											only = 1
+										}
+									}
+								}
+							}
+						}
+					}
+					for i, s := range x.Succs {
+						if only >= 0 && i != only {
+							continue
+						}
+						if dfs(s, x) {
 							return true
 						}
 					}
 					path = path[:len(path)-1]
 					return false
 				}
-				if dfs(b) {
+				if dfs(b, nil) {
 					where := ""
 					if len(found) > 0 {
 						last := found[len(found)-1]
@@ -594,6 +690,11 @@ func ruleO6(c *Ctx) {
 							if p := instrPos(li); p.IsValid() {
 								where = c.L.Pos(p)
 							}
+						}
+					}
+					if os.Getenv("GOSKVET_DEBUG") != "" {
+						for _, pb := range found {
+							fmt.Fprintf(os.Stderr, "O6 path block %d (%s) uses=%v\n", pb.Index, pb.Comment, uses[pb])
 						}
 					}
 					c.fail("O6", key, c.L.Pos(instrPos(in)), fmt.Sprintf("%s can go on to the next term without having looked at the operator it fetched (path ends near %s): the term is kept and its sign is lost", fn, where))
